@@ -752,8 +752,7 @@ _ADD5 = {
                      "every run."),
             ("note", "Encrypted data, blinding points and features are opaque; payload sizes of cleartext and blinded "
                      "intermediate hops remain oracle values, the blinded final hop has a size model tied on every row; "
-                     "paymentSession.RequestRoute's restrictions (no path set) are not driven (candidate observation in "
-                     "notes/C19.md); a nil-Features panic in NewBlindedPaymentPathSet is recorded as an observation "
+                     "a nil-Features panic in NewBlindedPaymentPathSet is recorded as an observation "
                      "(outside C19's statement)."),
             ("technique", "+ blinded/hint streams checked by a payment-level predicate independent of lnd's derived "
                           "edges + Coq check_bcase + Dijkstra replay with the NUMS target")],
@@ -825,5 +824,36 @@ _ADD6 = {
             ("technique", "+ exhaustive ordering enumeration of the negotiation entry (in Coq and on the real closers)")],
 }
 for _pid, _items in _ADD6.items():
+    for _field, _txt in _items:
+        CLAIMED[_pid][_field] += " " + _txt
+
+_ADD7 = {
+    "C07": [("text", "The restart clauses are checked with real channeldb records of every channel-identity kind (regular, "
+                     "zero-conf unconfirmed/confirmed/reorged, option-scid-alias, pending, closed): keystones are keyed by "
+                     "the id the link uses (ShortChanID(), the alias for zero-conf channels) and the restart must roll back or "
+                     "keep exactly those (C07_restart_identity)."),
+            ("note", "The switch stage still uses regular channels only (alias channels in the three-hop fixture would "
+                     "need the alias manager)."),
+            ("technique", "+ channel-identity enumeration over real OpenChannel records with a ground-truth predicate on "
+                          "which HTLCs were signed")],
+    "C15": [("text", "Enumerated `mixed` stream: ten scripted prefixes bring an invoice of every kind to the richest legal "
+                     "mix of HTLC states (canceled + accepted + settled) and then every registry entry point is invoked "
+                     "(fresh/partial HTLC, replay of the canceled HTLC, SettleHodlInvoice, CancelInvoice +-force, all "
+                     "timers, restart), both stores."),
+            ("technique", "+ mixed-state HTLC maps x every entry point, enumerated")],
+    "C18": [("text", "For inputs of every kind (unconfirmed parents/CPFP, required outputs/locktimes, six witness weight "
+                     "classes, dust values, wallet top-ups), measured on the serialized published transaction "
+                     "(GetTransactionWeight; fee = inputs - outputs): C18_cpfp_publisher_fee, C18_fee_with_parent_clamped, "
+                     "C18_fee_with_parent_unclamped_refuted; weightEstimator tied directly (CWest)."),
+            ("note", "Taproot script-path and HTLC witness types are not signed by the fakes, so those weight classes are "
+                     "not generated."),
+            ("technique", "+ real-size witnesses and on-transaction fee/rate clauses")],
+    "C19": [("text", "BOLT11 route hints and blinded paths enter through lnd's own entry points (newPaymentSession / "
+                     "RouteHintsToEdges / ToRouteHints, paymentSession.RequestRoute with only its pathFinder wrapped around "
+                     "the real findPath); routes are judged from the user-level hop hints, and the derived edges are tied to "
+                     "the Gallina mirror hint_edges (subcheck 14). Known findings C19-F1..F5."),
+            ("note", "routerrpc.parseQueryRoutesRequest is not driven (it calls the same conversion functions).")],
+}
+for _pid, _items in _ADD7.items():
     for _field, _txt in _items:
         CLAIMED[_pid][_field] += " " + _txt
